@@ -224,11 +224,13 @@ def run_case(case):
 # ---------------------------------------------------------------------------------------------- generators
 TEXTS = ["a", "b", "W", "x", " ", " ", "", " ", "fi", "\t", "1", "é"]
 D8 = lambda lo, hi: st.integers(lo * 8, hi * 8).map(lambda k: k / 8)  # noqa: E731
-SIZES = st.sampled_from([0.0, 0.125, 0.5, 1.0, 8.0, 8.5, 9.0, 10.0, 12.0, 16.0, 40.0])
-WIDTHS = st.sampled_from([0.0, 0.25, 4.0, 5.0, 8.0, 12.0])
+# (a glyph may be astronomically larger than the page: the spatial index covers the page only)
+SIZES = st.sampled_from([0.0, 0.125, 0.5, 1.0, 8.0, 8.5, 9.0, 10.0, 12.0, 16.0, 40.0, 2.0 ** 36])
+WIDTHS = st.sampled_from([0.0, 0.25, 4.0, 5.0, 8.0, 12.0, 2.0 ** 36])
 MATS = st.sampled_from([(1, 0, 0, 1)] * 6 + [(0, 1, -1, 0), (-1, 0, 0, -1), (0, -1, 1, 0), (1, 0, 0, -1), (2, 0, 0, 0.5),
                                              (1, 0.5, 0, 1), (0, 0, 0, 0)])
-FAR = st.sampled_from([-2.0 ** 20, 2.0 ** 20, -5000.0, 5000.0, -1.0, -0.125])
+# (beyond +-2**31 too: the sentinel of the expandable containers is INF = 2**31 - 1)
+FAR = st.sampled_from([-2.0 ** 20, 2.0 ** 20, -5000.0, 5000.0, -1.0, -0.125, 2.0 ** 33, -2.0 ** 33, 2.0 ** 40, -2.0 ** 31])
 
 
 @st.composite
